@@ -152,7 +152,9 @@ def matchesSym (b : Bytes) : Bool :=
   | c :: rest => isAlnum c && !rest.isEmpty && rest.all (fun x => isAlnum x || x = 0x5f)
   | [] => false
 
-def catchSym : Bytes := ascii "_catch"
+/-- `"_catch"` (explicit bytes, checked against the string by `#guard`) -/
+def catchSym : Bytes := [95, 99, 97, 116, 99, 104]
+#guard catchSym = ascii "_catch"
 
 /-- `valid(target)` -/
 def validTarget (t : Bytes) : Bool :=
@@ -243,6 +245,14 @@ def pageMapM (sym : Bytes) : VM Unit := do
     fail k (ascii "sink already set to symbol '" ++ cur ++ ascii "'")
   | .panic p => vpanic p
 
+/-- the two loops of `refresh` over `FlagReset` / `FlagSet`: a requested flag is applied only when
+`IsWriteableFlag` allows it -/
+def applyFlagList (setTo : Bool) : List Nat → VM Unit
+  | [] => pure ()
+  | f :: fs => do
+    let _ ← (if isWriteableFlag f then (if setTo then setFlagM f else resetFlagM f) else pure false)
+    applyFlagList setTo fs
+
 /-- `refresh(key)`: look the function up, call it, apply the writeable flags, handle LANG. -/
 def refresh (env : Env) (lang : Option Bytes) (key : Bytes) : VM Bytes := do
   let s ← get
@@ -257,15 +267,10 @@ def refresh (env : Env) (lang : Option Bytes) (key : Bytes) : VM Bytes := do
       let _ ← setFlagM Facts.loadfailFlag
       fail "external" (ascii "error " ++ key ++ ascii ":" ++ ascii (toString r.status))
     else do
-      for f in r.flagReset do
-        if isWriteableFlag f then
-          let _ ← resetFlagM f
-      for f in r.flagSet do
-        if isWriteableFlag f then
-          let _ ← setFlagM f
+      applyFlagList false r.flagReset
+      applyFlagList true r.flagSet
       let haveLang ← matchFlagM Facts.langFlag true
-      if haveLang then
-        modify fun s => { s with st := s.st.setLanguageSt env.langOf r.content }
+      modify fun s => if haveLang then { s with st := s.st.setLanguageSt env.langOf r.content } else s
       pure r.content
 
 /-- `runErrCheck` -/
@@ -357,6 +362,24 @@ def runMove (env : Env) (lang : Option Bytes) (b : Bytes) : VM Bytes := do
   vmReset
   pure (b ++ code)
 
+/-- the move an INCMP performs once its selector has matched: mark the match, apply the target,
+fetch the target's code. A `<` on the first page (`IndexError`) counts as no match. -/
+def incmpMove (env : Env) (lang : Option Bytes) (sym rest : Bytes) : VM Bytes := do
+  let _ ← setFlagM Facts.inmatchFlag
+  let _ ← resetFlagM Facts.readinFlag
+  logMove "INCMP" sym
+  let r ← attempt (applyTarget sym)
+  match r with
+  | .err "index" _ => do
+    let _ ← setFlagM Facts.readinFlag
+    pure rest
+  | .err k m => fail k m
+  | .panic p => vpanic p
+  | .ok (sym', _) => do
+    vmReset
+    let code ← getCodeM env lang sym'
+    pure (rest ++ code)
+
 def runInCmp (env : Env) (lang : Option Bytes) (b : Bytes) : VM Bytes := do
   let (sym, sel, b) ← decodeErr (parseTwoSym b)
   let reading ← getFlagM Facts.readinFlag
@@ -369,21 +392,7 @@ def runInCmp (env : Env) (lang : Option Bytes) (b : Bytes) : VM Bytes := do
   | none => fail "no-input" (ascii "no input has been set")
   | some input => do
     let wildcard := !have_ && sel = [0x2a]
-    if !wildcard && sel ≠ input then pure b else do
-    let _ ← setFlagM Facts.inmatchFlag
-    let _ ← resetFlagM Facts.readinFlag
-    logMove "INCMP" sym
-    let r ← attempt (applyTarget sym)
-    match r with
-    | .err "index" _ => do
-      let _ ← setFlagM Facts.readinFlag
-      pure b
-    | .err k m => fail k m
-    | .panic p => vpanic p
-    | .ok (sym', _) => do
-      vmReset
-      let code ← getCodeM env lang sym'
-      pure (b ++ code)
+    if !wildcard && sel ≠ input then pure b else incmpMove env lang sym b
 
 def runHalt (b : Bytes) : VM Bytes := do
   let _ ← setFlagM Facts.waitFlag
